@@ -159,8 +159,8 @@ type GlobalVarsMain struct {
 	FEU                     int
 	C1                      [21]float64 // Nitrogen content N-min
 	NAOS                    [21]float64 // Nitrogen in slowly decomposable pool (kg N ha-1)
-	MINAOS                  [4]float64  //  should be size of N
-	MINFOS                  [4]float64  // should be size of N
+	MINAOS                  [21]float64 // mineralised from NAOS per layer (sized like NAOS: tillage mixing indexes it down to the tillage depth)
+	MINFOS                  [21]float64 // mineralised from NFOS per layer
 	CA                      [21]float64
 	NDG                     DualType
 	MZ                      int
